@@ -99,9 +99,17 @@ fn gen(seed: u64, idx: u64, _tier: Tier) -> Plan {
         plan.step(t0 + 1, Action::Health { id: 901, reset: false });
     }
     let mut hid = 0;
+    let batch = plan.server.as_ref().unwrap().batch_size.max(1) as u64;
     for _round in 0..3 {
         for k in 0..(workers as u64 * 4) {
             plan.step(t + k * *rng.pick(&[0u64, 1, 7]), Action::Send { sock: rng.below(64) as u32, req: valid_spec(&mut rng, &mut ctr) });
+        }
+        if rng.chance(1, 4) {
+            // every worker finds a completely full batch (or one more than that) waiting: the
+            // requests leave at the same instant
+            for _ in 0..(workers as u64 * batch + rng.below(2)) {
+                plan.step(t + 9_000, Action::Send { sock: rng.below(64) as u32, req: valid_spec(&mut rng, &mut ctr) });
+            }
         }
         if health {
             let n = 1 + rng.below(4);
